@@ -47,6 +47,30 @@ theorem err_record_used_after_unlock :
     destruction, which run exclusively). -/
 theorem shared_sites_covered : sitesCovered lockFns sharedSites = true := by decide
 
+-- AUDIT: `lock_discipline`, `lock_discipline_full_iff`, `lock_discipline_violators` (at `ERR_REC_INLINE = false`, the current
+-- value: `[] = []`) and `shared_sites_covered` are `List.all` over GENERATED lists; all four are true of empty lists (an
+-- extractor that finds nothing).  What keeps them honest today is `err_record_used_after_unlock` (five names must be found)
+-- and `lock_paths_populated` below.  Minimal repair: add `lockFns`/`sharedSites` coverage to the statement
+-- (the named functions are present; some path locks, accesses, calls; some shared site lies outside the exclusive phase) —
+-- proved as `lock_paths_populated`.
+
+/-- (audit) the extracted lists are populated — the API functions of the three lock users are there, paths contain lock,
+    access and call events, and there are shared sites outside context creation / destruction; with this the four `List.all`
+    statements above cannot become true by an extractor finding nothing -/
+theorem lock_paths_populated : (["lydict_insert", "lydict_insert_zc", "lydict_remove", "lydict_dup", "ly_err_get_rec", "ly_err_new_rec", "log_store",
+            "ly_err_first", "lyb_cache_module_hash", "lyb_get_hash"].all fun n => lockFns.any (·.name == n)) = true
+    ∧ 0 < (lockFns.flatMap fun f => f.paths.flatMap fun p => p.filter fun e => match e with | .lock _ => true | _ => false).length
+    ∧ 0 < (lockFns.flatMap fun f => f.paths.flatMap fun p => p.filter fun e => match e with | .access _ _ => true | _ => false).length
+    ∧ 0 < (lockFns.flatMap fun f => f.paths.flatMap fun p => p.filter fun e => match e with | .call _ => true | _ => false).length
+    ∧ sharedSites.any (fun s => !exclusivePhase.contains s.2) = true := by decide
+
+/-- non-vacuity (audit): the check is live — an accepted path stops being accepted when its unlock is dropped, when the
+    access is moved out of the section, or when the two mutexes are taken in the wrong order -/
+example : walk (guard false) lockFns ⟨[], []⟩ [.lock 0, .access 0 true, .access 1 true, .unlock 0, .ret] = true
+    ∧ walk (guard false) lockFns ⟨[], []⟩ [.lock 0, .access 0 true, .access 1 true, .ret] = false
+    ∧ walk (guard false) lockFns ⟨[], []⟩ [.access 0 true, .ret] = false
+    ∧ walk (guard false) lockFns ⟨[], []⟩ [.lock 1, .lock 0, .unlock 0, .unlock 1, .ret] = false := by decide
+
 /-- What the discipline buys, for any number of threads and any interleaving: threads that start without locks and
     run (call-free) paths accepted by the check never reach a state in which two of them are about to access fields
     guarded by the same mutex — in particular never the same guarded field. -/
@@ -72,6 +96,36 @@ theorem walk_implies_restOk (pol : Policy) (fns : List Fn) (p : List Ev)
     them reach a state with one inside its section. -/
 example : restOk (guard false) [] [.lock 0, .access 0 true, .access 1 true, .access 1 false, .unlock 0, .ret] = true ∧
     restOk (guard false) [] [.lock 1, .access 2 false, .unlock 1, .ret] = true := by decide
+
+/-- the inlined `lydict_insert` path -/
+def pIns : List Ev := [.lock 0, .access 0 true, .access 1 true, .access 1 false, .unlock 0, .ret]
+
+/-- non-vacuity (audit): `walk_implies_restOk` at that path -/
+example : restOk (guard false) [] pIns = true :=
+  walk_implies_restOk (guard false) lockFns pIns (by decide)
+    (by intro e he g; simp [pIns] at he; rcases he with rfl | rfl | rfl | rfl | rfl | rfl <;> simp)
+
+/-- non-vacuity (audit): two threads running it do reach a state with one of them inside its section, about to write the
+    table (the other is then still in front of its `lock`) … -/
+example : Reach ([pIns, pIns].map fun p => ⟨[], p⟩)
+    [⟨[0], [.access 0 true, .access 1 true, .access 1 false, .unlock 0, .ret]⟩, ⟨[], pIns⟩] :=
+  .tail (.refl _) (Step.lock _ 0 [] 0 _ rfl (by decide))
+
+/-- … and the theorem at these two threads: in no reachable state is thread 0 about to write the table while thread 1 is
+    about to read a record (different fields, same mutex) -/
+example (ts : List Thread) (hr : Reach ([pIns, pIns].map fun p => ⟨[], p⟩) ts) (a b : Thread)
+    (hi : ts[0]? = some a) (hj : ts[1]? = some b) (r1 r2 : List Ev)
+    (ha : a.todo = .access 0 true :: r1) (hb : b.todo = .access 1 false :: r2) : False :=
+  guarded_accesses_exclusive (guard false) [pIns, pIns] (by decide) ts hr 0 1 (by decide) a b hi hj 0 1 true false r1 r2 ha hb
+    0 rfl rfl
+
+/-- non-vacuity (audit): the conclusion is not a property of the machine alone — for paths the check rejects (no lock around
+    the access) every other hypothesis of `guarded_accesses_exclusive` is met by a reachable state (the initial one) -/
+example : ∃ (ts : List Thread) (a b : Thread),
+    Reach ([[Ev.access 0 true, .ret], [.access 0 false, .ret]].map fun p => ⟨[], p⟩) ts ∧
+    ts[0]? = some a ∧ ts[1]? = some b ∧ a.todo = [.access 0 true, .ret] ∧ b.todo = [.access 0 false, .ret] ∧
+    guard false 0 true = some 0 ∧ guard false 0 false = some 0 ∧ restOk (guard false) [] [.access 0 true, .ret] = false :=
+  ⟨_, _, _, .refl _, rfl, rfl, rfl, rfl, rfl, rfl, by decide⟩
 
 /-! ## (b) the dictionary under any interleaving -/
 
@@ -128,6 +182,30 @@ example : ∃ (ts : List (List TStep)) (sched : List (Nat × TStep)),
        (.step _ 0 _ _ _ rfl (.step _ 1 _ _ _ rfl (.step _ 1 _ _ _ rfl (.done _ ?_))))))))
      decide,
    by decide⟩
+
+/-- non-vacuity (audit): the theorem instantiated at that witness, serial order `2, 0, 1`; the counts it speaks about are
+    not constant (three references to "a" in the middle of the run, none at the end, one to "b") -/
+def exTs : List (List TStep) :=
+  [[.atomic (.insert "a"), .loc, .atomic (.remove "a")],
+   [.atomic (.insert "a"), .atomic (.dup "a"), .atomic (.remove "a"), .atomic (.remove "a")],
+   [.atomic (.insert "b")]]
+
+def exSched : List (Nat × TStep) :=
+  [(1, .atomic (.insert "a")), (0, .atomic (.insert "a")), (1, .atomic (.dup "a")), (0, .loc), (2, .atomic (.insert "b")),
+   (0, .atomic (.remove "a")), (1, .atomic (.remove "a")), (1, .atomic (.remove "a"))]
+
+theorem exSched_interleaving : Interleaving exTs exSched := by
+  refine .step _ 1 _ _ _ rfl (.step _ 0 _ _ _ rfl (.step _ 1 _ _ _ rfl (.step _ 0 _ _ _ rfl (.step _ 2 _ _ _ rfl
+    (.step _ 0 _ _ _ rfl (.step _ 1 _ _ _ rfl (.step _ 1 _ _ _ rfl (.done _ ?_))))))))
+  decide
+
+example : (∀ s, (exec noRefs exSched).1 s = (exec noRefs (serialSched exTs [2, 0, 1])).1 s) ∧
+    (∀ i, retsOf i (exec noRefs exSched).2 = retsOf i (exec noRefs (serialSched exTs [2, 0, 1])).2) ∧
+    (∀ i l, exTs[i]? = some l → retsOf i (exec noRefs exSched).2 = alone noRefs l) :=
+  dict_linearizable noRefs exTs (by decide) exSched exSched_interleaving [2, 0, 1] (by decide)
+
+example : (exec noRefs exSched).1 "a" = 0 ∧ (exec noRefs exSched).1 "b" = 1 ∧ (exec noRefs (exSched.take 5)).1 "a" = 3 := by
+  decide
 
 /-- Without the reference discipline the statement is false — not a defect, the boundary of the contract: a thread
     that removes a string it does not hold steals another thread's reference, and what it gets depends on the
@@ -213,6 +291,18 @@ example : ∃ s, errRun true errInit
        (2, .getRec), (2, .newRecIfNull), (2, .store 12), (0, .getRec), (1, .getRec), (1, .read), (0, .read)] = .ok s ∧
     s.obs = [⟨1, 1, [11]⟩, ⟨0, 0, [10]⟩] := ⟨_, rfl, by decide⟩
 
+/-- that schedule -/
+def exErr : List (Nat × ErrStep) :=
+  [(0, .getRec), (1, .getRec), (0, .newRecIfNull), (1, .newRecIfNull), (1, .store 11), (0, .store 10),
+   (2, .getRec), (2, .newRecIfNull), (2, .store 12), (0, .getRec), (1, .getRec), (1, .read), (0, .read)]
+
+/-- non-vacuity (audit) of `err_view_alone`: thread 1 alone observes what it observes in the schedule -/
+example : ∃ a, errRun true errInit (mine 1 exErr) = .ok a ∧ a.obs = [⟨1, 1, [11]⟩] := ⟨_, rfl, by decide⟩
+
+/-- non-vacuity (audit): `err_safe_below_threshold` at that schedule (three threads, records stored in the array) -/
+example : ∃ s, errRun true errInit exErr = .ok s ∧ ∀ o ∈ s.obs, o.owner = o.thread :=
+  err_safe_below_threshold true [0, 1, 2] (by decide) exErr (by decide)
+
 /-! ## (d) lazily cached canonical strings -/
 
 /-- The print callbacks that fill `value->_canonical` on first use, none of them under a lock (finding F9): the list
@@ -273,6 +363,19 @@ theorem lazy_canon_race_fails :
 example : (lrun "x y" (lazyInit none 0) raceSchedule).refs = 2 ∧ (lrun "x y" (lazyInit none 0) raceSchedule).canon = some "x y" := by
   decide
 
+/-- non-vacuity (audit) of `lazy_canon_partial` / `lazy_canon_serial`: the schedules they quantify over include ones that
+    produce output — three readers racing on a cached value all return it; the race schedule after one completed reader
+    takes no further reference (5 = 4 + 1) and freeing the value gives it back -/
+example : (lrun "c" (lazyInit (some "c") 1) [(0, .check), (1, .check), (0, .insert), (1, .insert), (0, .set), (2, .check),
+      (1, .set), (0, .ret), (1, .ret), (2, .insert), (2, .set), (2, .ret)]).out = [(0, "c"), (1, "c"), (2, "c")]
+    ∧ (lrun "x y" (lazyInit none 4) (tagged 0 reader ++ raceSchedule)).refs = 5
+    ∧ (lrun "x y" (lazyInit none 4) (tagged 0 reader ++ raceSchedule)).out = [(0, "x y"), (0, "x y"), (1, "x y")]
+    ∧ (lfree (lrun "x y" (lazyInit none 4) (tagged 0 reader ++ raceSchedule))).refs = 4 := by decide
+
+-- AUDIT (minor): in `lazy_canon_partial` the start state `lazyInit (some c) r0` with `r0 = 0` (a cached pointer to a string
+-- with no reference) cannot arise, and there the third conjunct is `0 = 0 - 1` in truncated subtraction.  Harmless (the
+-- theorem is about `r0 ≥ 1`), but `1 ≤ r0` belongs in the statement if the conjunct is to mean "one reference is released".
+
 /-! ## the LYB schema-hash cache: written once under the lock, read without it -/
 
 /-- In every schedule of any number of threads in which each thread's `lyb_get_hash` reads come after a
@@ -289,5 +392,14 @@ theorem lyb_cache_published (v : Nat) (sched : List (Nat × CStep))
 example : readsAfterOwnCache (fun _ => false) [(0, .cache), (1, .cache), (1, .read), (0, .read), (2, .cache), (2, .read)] = true ∧
     (crun 7 cacheInit [(0, .cache), (1, .cache), (1, .read), (0, .read), (2, .cache), (2, .read)]).reads =
       [(1, some 7), (0, some 7), (2, some 7)] := by decide
+
+/-- non-vacuity (audit): the theorem at that schedule; and its hypothesis does exclude something — a thread that reads
+    without having called `lyb_cache_module_hash` itself is rejected, and such a read can see an empty cache -/
+example : (crun 7 cacheInit [(0, .cache), (1, .cache), (1, .read), (0, .read), (2, .cache), (2, .read)]).writes ≤ 1 ∧
+    ∀ r ∈ (crun 7 cacheInit [(0, .cache), (1, .cache), (1, .read), (0, .read), (2, .cache), (2, .read)]).reads, r.2 = some 7 :=
+  lyb_cache_published 7 _ (by decide)
+
+example : readsAfterOwnCache (fun _ => false) [(0, .cache), (1, .read)] = false ∧
+    (crun 7 cacheInit [(1, .read), (0, .cache)]).reads = [(1, none)] := by decide
 
 end LyModel.Props.C16
